@@ -20,6 +20,8 @@ run_demo() {
   case "$demo" in
     *.ds) cargo build -q -p duckscript_cli --offline >>"$log" 2>&1 || return 99
           (cd "$out" && timeout 120 "$wt/target/debug/duck" "$demo") >>"$log" 2>&1; return $? ;;
+    *.sh) cargo build -q -p duckscript_cli --offline >>"$log" 2>&1 || return 99
+          (cd "$out" && timeout 300 sh "$demo") >>"$log" 2>&1; return $? ;;
     *.rs) crate=duckscript; grep -q -E "duckscriptsdk|duckscript_sdk" "$out/$x.meta.json" 2>/dev/null && crate=duckscript_sdk
           pkg=duckscript; [ "$crate" = duckscript_sdk ] && pkg=duckscriptsdk
           mkdir -p "$wt/$crate/tests"; cp "$demo" "$wt/$crate/tests/seed_demo_$x.rs"
